@@ -383,7 +383,11 @@ def shards(tier):
 def run_shard(spec, seed, tier):
     res = ShardResult()
     first = {}
+    nvio = 0
     for sc in spec["scenarios"]:
+        if nvio >= 3:
+            res.notes.append("enumeration stopped early after 3 violating crash scenarios in this shard")
+            break
         case = {k: sc[k] for k in sc}
         info = {"crashed": False}
         try:
@@ -398,9 +402,10 @@ def run_shard(spec, seed, tier):
                           sample={"scheme": sc["base"]["scheme"], "component": sc["component"], "op": opname, "mutation": sc["what"],
                                   "at": sc["at"], "mode": sc["mode"]})
         except Violation as v:
+            nvio += 1
             if v.bucket not in first:
                 first[v.bucket] = (case, str(v))
-    res.exhaustive = True
+    res.exhaustive = nvio < 3
     res.extra["enumeration_bounds"] = ("every selected mutation of every persisting handler (writes to one file collapsed to first/last) "
                                        "x {before, torn}; list obtained by a dry run, complete by construction for the sampled databases")
     for bucket, (case, msg) in first.items():
